@@ -455,7 +455,11 @@ func render(v interface{}) string {
 	if rv.Kind() == reflect.Ptr && rv.Elem().Kind() == reflect.Slice {
 		parts := make([]string, rv.Elem().Len())
 		for i := range parts {
-			parts[i] = render(rv.Elem().Index(i).Addr().Interface())
+			if e := rv.Elem().Index(i); e.Kind() == reflect.Ptr {
+				parts[i] = render(e.Interface())
+			} else {
+				parts[i] = render(e.Addr().Interface())
+			}
 		}
 		return "[" + strings.Join(parts, " ") + "]"
 	}
